@@ -1203,6 +1203,17 @@ func TestVerifC11SmallLimit(t *testing.T) {
 	c11RunSearch(cfg)
 }
 
+// samehash: conflicting votes for one block hash with two part-set headers, reported by consensus in both orders, through the lifecycle.
+func TestVerifC11SameHash(t *testing.T) {
+	c11WithSameHash = true
+	cfg := c11Config{part: "samehash", roots: []int64{5, 8}, maxDepth: 4, quickBudget: 60 * time.Second, thoroughBudget: 10 * time.Minute,
+		only: []string{"dv5/genuine-same-hash", "dv6/genuine-same-hash", "dv8/genuine-same-hash", "dv6/genuine"}}
+	if vr.Thorough() {
+		cfg.maxDepth = 6
+	}
+	c11RunSearch(cfg)
+}
+
 // deep: the lifecycle core (genuine items of each kind, a same-hash variant, one invalid representative of each kind), deep.
 func TestVerifC11Deep(t *testing.T) {
 	cfg := c11Config{part: "deep", roots: []int64{4, 5, 8}, maxDepth: 6, quickBudget: 100 * time.Second, thoroughBudget: 18 * time.Minute,
